@@ -679,7 +679,7 @@ func TestCheck(t *testing.T) {
 	run.Assume("synthetic version schemas validate arguments with a model of schemabuilder's arg parser (a field without arguments rejects any; otherwise unknown keys are ignored, declared values type-checked, enum values must be declared)")
 	run.Assume("sub-queries are checked in the form the service receives them (after federation.MarshalQuery/UnmarshalQuery)")
 	run.Assume("root fields served by several services are routed with a seeded ServiceSelector among FieldInfo.Services (the default picks by map iteration)")
-	nSets := run.N(300, 20000)
+	nSets := run.N(300, 60000)
 	nQueries := run.N(20, 50)
 	// case indices >= nSets are the pinned reproducers of pinned_test.go
 	run.Each(nSets+len(pinnedSets()), 8, func(i int) {
